@@ -345,6 +345,13 @@ static void check_bool_parens(Chunk *popen, Chunk *pclose, int nest)
          }
          ref = pc;
       }
+      else if (pc->Is(CT_ASSIGN))
+      {
+         // An assignment binds weaker than '&&', '||' and '?:', so the comparison to be
+         // parenthesized starts after it: 'a = b == c && d' is 'a = ((b == c) && d)'
+         ref         = pc;
+         hit_compare = false;
+      }
       else if (pc->Is(CT_COMPARE))
       {
          LOG_FMT(LPARADD2, " -- compare '%s' at line %zu, orig col is %zu, level is %zu\n",
